@@ -361,6 +361,21 @@ def run_reserved(res):
     if out != "aH":
         res.violate("filter-argument-named-like-flag", "${'a' | n,mkf(h)} with h='H' in the context gave %r, expected 'aH'" % out,
                     finding="C04/filter-arg-named-like-flag" if out.startswith("NameError") and "'h'" in out else None, witness="${'a' | n,mkf(h)} rendered with h='H'")
+    # the UNDEFINED singleton: the same object everywhere, false in a boolean context, an error when written
+    res.evaluations += 1
+    try:
+        out = T("${'T' if nosuch_a else 'F'}|${nosuch_a is UNDEFINED}|${nosuch_a is nosuch_b}<%def name=\"d()\">${nosuch_a is UNDEFINED}</%def>|${d()}").render_unicode()
+    except Exception as e:
+        out = "%s: %s" % (type(e).__name__, e)
+    if out != "F|True|True|True":
+        res.violate("undefined-singleton", "unbound names gave %r, expected 'F|True|True|True' (false, identical to UNDEFINED in body and def)" % out)
+    try:
+        out = T("${nosuch_a}").render_unicode()
+        res.violate("undefined-written", "writing an unbound name rendered %r instead of raising NameError" % out)
+    except NameError:
+        pass
+    except Exception as e:
+        res.violate("undefined-written", "writing an unbound name raised %s: %s" % (type(e).__name__, e))
     # with enable_loop=False, `loop` is an ordinary name
     res.evaluations += 1
     try:
